@@ -46,6 +46,12 @@ def build(cls_name, model, loss, names, overrides, clock, rnd):
         elif cls_name == "IntervalSage":
             kw["interval_length"] = overrides.get("interval", 2)
             kw["storage_length"] = overrides.get("window", 3)
+            if overrides.get("storage"):          # the user's own window storage: every call stores the observation exactly once
+                st = storage_proxy(IntervalStorage, clock)(size=kw["storage_length"], store_targets=True)
+                kw["storage"] = st
+        elif cls_name == "BatchSage" and overrides.get("storage"):
+            st = storage_proxy(BatchStorage, clock)(store_targets=True)
+            kw["storage"] = st
     if cls_name == "IncrementalSage":
         if overrides and overrides.get("lbib"):
             kw["loss_bigger_is_better"] = True      # a documented option: only the reported model / marginal loss are shifted
@@ -211,6 +217,10 @@ def main(run):
                                                                 f"updates the explainer's own storage, nothing else)"))
                 if t == 0 and manual_first and not bad:
                     e.update_storage(x, y)          # the user seeds the storage through the public method instead
+                if not incremental and st is not None:
+                    ups = [ev for ev in log if ev[0] == "storage.update"]
+                    if len(ups) != 1 or ups[0][1] != x0 or ups[0][2] != y:
+                        bad.append(("storage-update-order", f"{cls_name}.explain_one: {len(ups)} storage update events (the observation is stored exactly once per call)"))
                 for mech, msg in bad:
                     run.violation(f"{mech}:{cls_name}" if mech in ("result-keys",) else mech, f"{tag} call {t}: {msg}", creplay)
                 if bad:
